@@ -220,6 +220,9 @@ func enumPaths(fn *ssa.Function, limit int) ([]cfgPath, bool) {
 			for si, s := range b.Succs {
 				nc := cur
 				nc.Conds = append(append([]guard{}, cur.Conds...), guard{ifi.Cond, si == 0})
+				if !condsConsistent(nc.Conds) {
+					continue // e.g. the fall-through of `switch x { case true: … case false: … }`: x is neither true nor false
+				}
 				if !rec(s, nc) {
 					return false
 				}
@@ -235,6 +238,73 @@ func enumPaths(fn *ssa.Function, limit int) ([]cfgPath, bool) {
 	}
 	ok := rec(fn.Blocks[0], cfgPath{})
 	return out, ok
+}
+
+// boolTest: the boolean value a branch condition tests and the value it has on the edge taken: `x`, `!x`, `x == true`,
+// `x != false`, … all test x.
+func boolTest(c guard) (ssa.Value, bool) {
+	g := normGuard(c)
+	v, want := g.Cond, g.Pol
+	if bo, ok := g.Cond.(*ssa.BinOp); ok && (bo.Op == token.EQL || bo.Op == token.NEQ) {
+		var side ssa.Value
+		var k bool
+		if b, isC := constBool(bo.Y); isC {
+			side, k = bo.X, b
+		} else if b, isC := constBool(bo.X); isC {
+			side, k = bo.Y, b
+		}
+		if side != nil {
+			v = side
+			if bo.Op == token.EQL {
+				want = k == g.Pol
+			} else {
+				want = k != g.Pol
+			}
+			if u, isU := v.(*ssa.UnOp); isU && u.Op == token.NOT {
+				v, want = u.X, !want
+			}
+		}
+	}
+	return v, want
+}
+
+// condsConsistent: the branch conditions taken along a path do not contradict each other as far as plain boolean values and their
+// comparisons with true / false go (the same SSA value cannot be both true and false).
+func condsConsistent(conds []guard) bool {
+	val := map[ssa.Value]bool{}
+	for _, c := range conds {
+		g := normGuard(c)
+		v, want := g.Cond, g.Pol
+		if bo, ok := g.Cond.(*ssa.BinOp); ok && (bo.Op == token.EQL || bo.Op == token.NEQ) {
+			var side ssa.Value
+			var k bool
+			if b, isC := constBool(bo.Y); isC {
+				side, k = bo.X, b
+			} else if b, isC := constBool(bo.X); isC {
+				side, k = bo.Y, b
+			}
+			if side != nil {
+				// (side == k) has polarity want  <=>  side == (k == want) for ==, side == (k != want) for !=
+				v = side
+				if bo.Op == token.EQL {
+					want = k == g.Pol
+				} else {
+					want = k != g.Pol
+				}
+				if u, isU := v.(*ssa.UnOp); isU && u.Op == token.NOT {
+					v, want = u.X, !want
+				}
+			}
+		}
+		if !isBoolType(v.Type()) {
+			continue
+		}
+		if old, ok := val[v]; ok && old != want {
+			return false
+		}
+		val[v] = want
+	}
+	return true
 }
 
 // phiValueOnPath resolves a value through the phis along a concrete path: returns the incoming value selected by the path.
